@@ -32,6 +32,9 @@ def gen_case(rng, i=None, pruning=False, allow_none=True):
     elif rng.random() < 0.03:
         xs = S.tails(rng)
         pools = ['tails']
+    elif rng.random() < 0.04:
+        xs = S.narrowing(rng)
+        pools = ['narrowing']
     odd = rng.random() < 0.08
     if odd:
         # "odd one out": many strings of one class plus one or two look-alikes of a neighbouring class
@@ -52,9 +55,11 @@ def gen_case(rng, i=None, pruning=False, allow_none=True):
     else:
         dialect = rng.choice(DIALECTS)
         form = rng.choice(['list', 'list', 'list', 'dict', 'dict', 'series', 'serieslist', 'catseries'])
-        sampled = rng.random() < 0.45 or odd
+        sampled = rng.random() < 0.45 or odd or pools == ['narrowing']
     kw = dict(tag=rng.random() < 0.3, strip=rng.random() < 0.2, remove_empties=rng.random() < 0.3,
               extra_letters=rng.choice(EXTRAS), variableLengthFrags=rng.random() < 0.3 or pools == ['tails'], dialect=dialect)
+    if rng.random() < 0.08:
+        kw['verbose'] = rng.choice([1, 2])        # the documented verbosity levels only add printed diagnostics
     size = None
     seed = None
     if sampled:
@@ -65,7 +70,7 @@ def gen_case(rng, i=None, pruning=False, allow_none=True):
         if rng.random() < 0.3:
             size['max_punc_in_group'] = rng.choice([1, 2, 5])
         seed = rng.choice([None, 0, 1, 2, 12345])
-        if odd:
+        if odd or pools == ['narrowing']:
             size['do_all'] = rng.choice([2, 4, 5])
             size['do_all_exceptions'] = rng.choice([2, 4, 5])
         if len(xs) < 6:
